@@ -75,10 +75,24 @@ def seeds():
 
 
 def neutral():
-    rows = ["| set | patches | scope |", "|---|---|---|"]
+    res = {}
+    for f in sorted(glob.glob(os.path.join(HERE, "neutral", "MATRIX-*.json"))):
+        try:
+            res.update(json.load(open(f)))
+        except Exception:
+            pass
+    rows = ["| set | patches | silent on every check of the family | still alarming at the end of the session (check: rules) |", "|---|---|---|---|"]
     for d in sorted(glob.glob(os.path.join(HERE, "neutral", "*"))):
+        if not os.path.isdir(d):
+            continue
+        g = os.path.basename(d)
         n = len(glob.glob(os.path.join(d, "*.diff")))
-        rows.append("| neutral/%s | %d | see %s/README.md |" % (os.path.basename(d), n, "neutral/" + os.path.basename(d)))
+        mine = {k: v for k, v in res.items() if k.startswith(g + "/")}
+        silent = len([1 for v in mine.values() if v["status"] == "silent"])
+        bad = ["%s (%s: %s)" % (k.split("/")[1], ",".join(v["alarming_checks"]), "; ".join(v["rules"])[:160]) for k, v in sorted(mine.items()) if v["status"] == "alarm"]
+        other = ["%s (%s)" % (k.split("/")[1], v["status"]) for k, v in sorted(mine.items()) if v["status"] not in ("silent", "alarm")]
+        rows.append("| neutral/%s | %d | %s | %s |" % (g, n, ("%d of %d run" % (silent, len(mine))) if mine else "final matrix not run for this set",
+                                                    ("<br>".join(bad + other) or "-").replace("|", "/")))
     return "\n".join(rows)
 
 
